@@ -32,13 +32,15 @@ def sf_value(phase, lag):
 
 
 def tps(slope_data):
+    # every bin strictly below the Nyquist frequency: ceil(n / 2) of them (for odd n bin (n-1)/2 is below Nyquist and is not
+    # the mirror of a lower bin)
     n = slope_data.shape[-2]
-    p = abs(numpy.fft.fft(slope_data, axis=-2)[..., :int(n / 2), :]) ** 2
+    p = abs(numpy.fft.fft(slope_data, axis=-2)[..., :(n + 1) // 2, :]) ** 2
     return p.mean(-1), p.std(-1) / numpy.sqrt(p.shape[-1])
 
 
 def time_axis(frame_rate, n_frames):
-    return numpy.fft.fftfreq(n_frames, 1. / frame_rate)[:int(n_frames / 2)]
+    return numpy.fft.fftfreq(n_frames, 1. / frame_rate)[:(n_frames + 1) // 2]
 '''
 
 
@@ -141,6 +143,22 @@ def run(rep, tier, root=None):
             check_equal(rep, "T1.lag-definition", f.fq + ": sf[k] = mean((phase[:-k*step] - phase[k*step:])**2)", val_e, want_e,
                         "%s:%d" % (f.module.relpath, lineno), what="value stored at index %s" % nf(idx_t, 40))
             check_degree(rep, "T3.quadratic", f.fq + " ~ phase^2", val, "phase", Fr(2), f.where(), "structure function value")
+            # the lags are bounded by the extent of the axis the shift runs along (axis 0: phase[:-i] - phase[i:]), with the
+            # default number of points as well: a bound taken from the other axis lets lags run past the last row (mean of
+            # an empty slice) for arrays with fewer rows than columns
+            ext_all = []
+            for nb_arg in (nb, None):
+                Il = Interp(ix, int_transparent=True)
+                Il.returns(f, [phase, nb_arg, step])
+                e_ = _alloc_extent(f, Il, phase, nb_arg, step)
+                if e_ is not None:
+                    ext_all.append(e_)
+            names_ = set(a.name for e_ in ext_all for a in e_.atoms() if isinstance(a, Sym) and a.name.startswith("shape(phase)"))
+            wrong_ = sorted(n_ for n_ in names_ if not (n_.endswith("[0]") or n_.endswith("[-2]")))
+            rep.check(bool(ext_all) and bool(names_) and not wrong_, "T2.lag-range", f.fq + ": the number of lags is bounded by the extent of the shifted (first) axis",
+                      "the number of lags is computed from %s while the shift runs along axis 0: for a phase array with fewer rows than "
+                      "columns lags exceed the number of rows and their entries are nan (mean of an empty slice)" % (wrong_ or "no extent of the phase"),
+                      f.where())
             # T2 coverage of the returned array (in terms of the trip counter)
             ret = rets[0][1]
             alloc = _allocation(ret)
@@ -187,7 +205,7 @@ def run(rep, tier, root=None):
         # frame counts are non-negative integers: n // 2 and int(n / 2) are the same number (int() is transparent here)
         got = tuple(_floordiv_as_int(x) for x in r2[0][1])
         r2 = [(r2[0][0], got)]
-        want = IO.returns(ix.func(om.name, "tps"), [sd])[0][1]
+        want = tuple(_floordiv_as_int(x) for x in IO.returns(ix.func(om.name, "tps"), [sd])[0][1])
         for k, label in ((0, "mean spectrum"), (1, "standard error")):
             check_degree(rep, "T3.quadratic", "%s[%s] ~ slope_data^2" % (g.fq, label), got[k], "slope_data", Fr(2), g.where(), label)
             check_equal(rep, "T4.spectrum-definition", "%s[%s]" % (g.fq, label), got[k], want[k], g.where(), what=label)
@@ -199,9 +217,9 @@ def run(rep, tier, root=None):
     if len(r3) != 1:
         rep.unknown("T5.frequency-axis", h.fq, "expected one path", h.where())
     else:
-        want = IO.returns(ix.func(om.name, "time_axis"), [fr, nfr])[0][1]
+        want = _floordiv_as_int(IO.returns(ix.func(om.name, "time_axis"), [fr, nfr])[0][1])
         r3 = [(r3[0][0], _half_of_rfftfreq(_floordiv_as_int(r3[0][1]), nfr))]
-        check_equal(rep, "T5.frequency-axis", h.fq + " == fftfreq(n, 1/rate)[:n/2]", r3[0][1], want, h.where(), what="frequency axis")
+        check_equal(rep, "T5.frequency-axis", h.fq + " == fftfreq(n, 1/rate)[:ceil(n/2)]", r3[0][1], want, h.where(), what="frequency axis")
         # same truncation in spectrum and axis
         if len(r2) == 1 and isinstance(r2[0][1], tuple):
             t_axis = _slice_upper(r3[0][1])
@@ -227,7 +245,8 @@ def _half_of_rfftfreq(v, n):
                 and a.args[1][0] == "slice" and a.args[1][3] is None and isinstance(a.args[1][1], Rat) and a.args[1][1].is_zero():
             b = a.args[0].single_atom()
             hi = a.args[1][2]
-            half = [Rat.atom(Fn("int", (n / 2,))), n / 2, Rat.atom(Fn("floordiv", (n, Rat.const(2))))]
+            half = [Rat.atom(Fn("int", (n / 2,))), n / 2, Rat.atom(Fn("floordiv", (n, Rat.const(2)))), (n + 1) / 2,
+                    Rat.atom(Fn("floordiv", (n + 1, Rat.const(2))))]
             if isinstance(b, Fn) and b.name == "rfftfreq" and same_value(b.args[0], n) and isinstance(hi, Rat) and any(same_value(hi, h_) for h_ in half):
                 return Rat.atom(Fn("getitem", (Rat.atom(Fn("fftfreq", b.args)), a.args[1])))
         return None
